@@ -238,8 +238,9 @@ def run_context(ctx, d, strings, lines, expect, with_gcc=True, limit=40):
                 ctx.fail(case, "getctype raised %s" % type(e).__name__)
                 continue
             case["text"] = text
-            exp = expected(B, T, x, int_t, char_t)
             got = g.typeof(ffi, text)
+            # (after typeof: the in-line FFI completes struct/union ctypes lazily, the constructors below need them complete)
+            exp = expected(B, T, x, int_t, char_t)
             if exp[0] == "err":
                 ctx.count("expected:refused")
                 if got[0] == "ok":
@@ -382,3 +383,17 @@ def replay(ctx, obj):
     if exp[0] == "err":
         return 1 if got[0] == "ok" else 0
     return 0 if got[0] == "ok" and got[1] is exp[1] else 1
+
+
+def check_witness(ctx, finding):
+    """witness = {"cdef": ..., "type": type string}: True if gcc still rejects getctype(type, 'v')."""
+    w = finding["witness"]
+    fi, fc = g.make_ffis(ctx, w.get("cdef", "typedef int T0;\n"))
+    T = fc.typeof(w["type"])
+    text = fc.getctype(T, "v_w")
+    path = os.path.join(ctx.scratch, "c08_witness.c")
+    with open(path, "w") as f:
+        f.write(C_PRELUDE + w.get("cdef", "") + text + ";\n")
+    r = subprocess.run(["gcc", "-fsyntax-only", "-w", "-std=gnu11", path], stdout=subprocess.PIPE,
+                       stderr=subprocess.STDOUT, universal_newlines=True, timeout=300)
+    return r.returncode != 0
